@@ -872,3 +872,26 @@ fn dump_shifted_solutions(d: [f64; 3], ik: &Solutions) {
         println!("[{}]", row_str.trim_end()); // Trim trailing space for aesthetics
     }
 }
+
+/// Thin public wrappers around private helpers, compiled only for the external verification
+/// harness (`--cfg rs_opw_kinematics_verif`); they add no behaviour of their own.
+#[cfg(rs_opw_kinematics_verif)]
+pub mod verif_hooks {
+    pub fn normalize_near(now: f64, must_be_near: f64) -> f64 {
+        let mut value = now;
+        super::normalize_near(&mut value, must_be_near);
+        value
+    }
+
+    pub fn is_close_to_multiple_of_pi(joint_value: f64, threshold: f64) -> bool {
+        super::is_close_to_multiple_of_pi(joint_value, threshold)
+    }
+
+    pub fn are_angles_close(angle1: f64, angle2: f64) -> bool {
+        super::are_angles_close(angle1, angle2)
+    }
+
+    pub fn calculate_distance(joint1: &super::Joints, joint2: &super::Joints) -> f64 {
+        super::calculate_distance(joint1, joint2)
+    }
+}
